@@ -94,3 +94,9 @@ package base
 //@   ensures[C20] ret.Scheme == u.Scheme && ret.Host == u.Host && ret.Path == u.Path && ret.RawPath == u.RawPath && ret.RawQuery == u.RawQuery && ret.ForceQuery == u.ForceQuery
 //@   ensures[C20] ret.Opaque == "" && !ret.OmitHost && ret.Fragment == "" && ret.RawFragment == ""
 //@   modifies fresh
+
+// URL.String is net/url's String of the same fields (urlstr: specs/lib.spec).
+//@ func (u *URL) String
+//@   requires u != nil
+//@   ensures[C20] ret == urlstr(u.Scheme, u.Opaque, u.User, u.Host, u.Path, u.RawPath, u.OmitHost, u.ForceQuery, u.RawQuery, u.Fragment, u.RawFragment)
+//@   modifies nothing
